@@ -56,13 +56,17 @@ type replayFile struct {
 	Key      string   `json:"key"`
 	Detail   string   `json:"detail"`
 	Tape     []uint32 `json:"tape"`
-	Window   []int    `json:"window,omitempty"` // [from,to]: run indices to execute in one process when no single tape reproduces
+	Cold     bool     `json:"cold_start,omitempty"` // replay in a process that parsed nothing before (worker flag -cold)
+	Window   []int    `json:"window,omitempty"`     // [from,to]: run indices to execute in one process when no single tape reproduces
 	TapeLen0 int      `json:"tape_len_before_shrinking"`
 	Trace    []string `json:"trace"`
 	Schedule []string `json:"schedule_and_faults,omitempty"`
 	Race     string   `json:"race_report,omitempty"`
 	Note     string   `json:"note,omitempty"`
 }
+
+// replayExtra are worker flags a replay needs in addition (e.g. -cold).
+var replayExtra []string
 
 // curSeed is the base seed of the running check (workers derive per-invocation material such
 // as the C19 corpus from it, also when replaying a tape).
@@ -89,7 +93,7 @@ func replayOnce(bin, prop string, tape []uint32) (*found, []string, error) {
 	defer os.Remove(f.Name())
 	json.NewEncoder(f).Encode(map[string]interface{}{"tape": tape})
 	f.Close()
-	cr := runChunk(bin, prop, curSeed, 0, 1, "asc", "-tape", f.Name())
+	cr := runChunk(bin, prop, curSeed, 0, 1, "asc", append([]string{"-tape", f.Name()}, replayExtra...)...)
 	if cr.err != nil {
 		return nil, nil, cr.err
 	}
@@ -271,10 +275,13 @@ func cmdCheck(id string, tier string, replayPath string) int {
 			if strings.HasSuffix(v.Viol.Class, rOrderSuffix) {
 				return reportROrder(c, v)
 			}
+			if v.Cold {
+				replayExtra = []string{"-cold"}
+			}
 			tape0 := len(v.Tape)
 			sv, tries := shrink(bin, id, v, 90*time.Second)
 			rf := replayFile{Property: id, Seed: seed, RunIndex: v.I, RunSeed: v.Seed, Tier: tier, Class: sv.Viol.Class, Key: sv.Viol.Key,
-				Detail: sv.Viol.Detail, Tape: sv.Tape, TapeLen0: tape0, Trace: sv.Sample, Schedule: sv.Sched, Race: sv.Race}
+				Detail: sv.Viol.Detail, Tape: sv.Tape, TapeLen0: tape0, Trace: sv.Sample, Schedule: sv.Sched, Race: sv.Race, Cold: v.Cold}
 			os.MkdirAll(filepath.Join(verifDir, "replays"), 0o755)
 			path := filepath.Join(verifDir, "replays", fmt.Sprintf("%s-%d-%d.json", id, seed, v.I))
 			jb, _ := json.MarshalIndent(rf, "", " ")
@@ -330,7 +337,7 @@ func cmdCheck(id string, tier string, replayPath string) int {
 // replayWindow executes runs [from,to] in one worker process and reports whether run `to`
 // shows a violation of the given class.
 func replayWindow(bin, prop string, seed uint64, from, to int, class string) bool {
-	cr := runChunk(bin, prop, seed, from, to+1, "asc")
+	cr := runChunk(bin, prop, seed, from, to+1, "asc", replayExtra...)
 	return cr.err == nil && cr.viol != nil && cr.viol.I == to && cr.viol.Viol.Class == class
 }
 
@@ -346,6 +353,9 @@ func cmdReplay(c *checkCtx, path string) int {
 	}
 	curSeed, c.seed, c.tier = rf.Seed, rf.Seed, rf.Tier
 	tierName = rf.Tier
+	if rf.Cold {
+		replayExtra = []string{"-cold"}
+	}
 	if p.pre != nil {
 		p.pre(c)
 	}
@@ -365,7 +375,7 @@ func cmdReplay(c *checkCtx, path string) int {
 		return 0
 	} else if len(rf.Window) == 2 {
 		tierName = rf.Tier
-		cr := runChunk(bin, p.id, rf.Seed, rf.Window[0], rf.Window[1]+1, "asc")
+		cr := runChunk(bin, p.id, rf.Seed, rf.Window[0], rf.Window[1]+1, "asc", replayExtra...)
 		if cr.err != nil {
 			exit2("%v", cr.err)
 		}
@@ -567,4 +577,59 @@ func reportROrder(c *checkCtx, v *found) int {
 	fmt.Printf("VIOLATION property=%s replay=%s\n", c.p.id, path)
 	writeEvidence(c, 1, path)
 	return 1
+}
+
+// c06Cold is C06's cold-start phase: K worker processes, each executing ONE run in which
+// nothing was parsed before the tasks start, so that the lazy initialisation of the library's
+// parser is itself exercised concurrently.
+func c06Cold(c *checkCtx) *found {
+	k := 96
+	if c.tier == "thorough" {
+		k = 3000
+	}
+	var mu sync.Mutex
+	var first *found
+	var firstErr error
+	done := 0
+	var wg sync.WaitGroup
+	sem := make(chan struct{}, 16)
+	for i := 0; i < k; i++ {
+		i := i
+		wg.Add(1)
+		go func() {
+			defer wg.Done()
+			sem <- struct{}{}
+			defer func() { <-sem }()
+			mu.Lock()
+			stop := first != nil || firstErr != nil
+			mu.Unlock()
+			if stop {
+				return
+			}
+			cr := runChunk(c.bin, c.p.id, c.seed, 1000000+i, 1000000+i+1, "asc", "-cold")
+			mu.Lock()
+			defer mu.Unlock()
+			done++
+			if cr.err != nil {
+				if firstErr == nil {
+					firstErr = cr.err
+				}
+				return
+			}
+			if cr.sum != nil {
+				c.b.add(cr.sum)
+			}
+			if cr.viol != nil && (first == nil || cr.viol.I < first.I) {
+				first = cr.viol
+				first.Cold = true
+			}
+		}()
+	}
+	wg.Wait()
+	if firstErr != nil {
+		c.env.cleanup()
+		exit2("cold-start phase: %v", firstErr)
+	}
+	c.extra["cold_start_processes"] = done
+	return first
 }
